@@ -545,4 +545,7 @@ var spec = run.Spec[Case]{ID: "C18", Name: "digits", Gen: genCase, Prop: prop, C
 
 func TestPropDigits(t *testing.T) { run.Generated(t, spec) }
 func TestRegress(t *testing.T)    { run.Regress(t, spec) }
-func TestReplay(t *testing.T)     { run.ReplayOne(t, spec) }
+func TestReplay(t *testing.T) {
+	run.ReplayOne(t, spec)
+	run.ReplayOne(t, concSpec)
+}
